@@ -89,6 +89,7 @@ func bitClass(typ uint16, resp []byte, bit int) string {
 }
 
 type pair struct {
+	clients        *gen.Clients
 	a, b           *gen.Session // two outstanding requests under the same issuer key
 	respA, respB   []byte
 	foreignKeyResp []byte // response to a's request bytes computed under another issuer key (nil if not available)
@@ -99,6 +100,7 @@ func newPair(t *rapid.T, typ uint16) (*pair, error) {
 	p := &pair{}
 	var err error
 	cl := gen.NewClients() // both outstanding requests come from ONE client object of the type
+	p.clients = cl
 	switch typ {
 	case 1, 5:
 		suite := oprf.SuiteP384
@@ -107,12 +109,20 @@ func newPair(t *rapid.T, typ uint16) (*pair, error) {
 		}
 		key := gen.OPRFKey(suite, gen.Seed().Draw(t, "keyseed"))
 		other := gen.OPRFKey(suite, append(gen.Seed().Draw(t, "otherkeyseed"), 1))
-		if p.a, err = gen.NewSession(t, typ, gen.SessionOpts{OKey: key, MaxBatch: 5, Clients: cl}); err != nil {
+		// type 5, in a third of the cases: both requests are made with fixed blinds and share challenge, FIRST nonce and FIRST
+		// blind - their first blinded elements are equal, everything after differs
+		shared := typ == 5 && gen.Uniform(t, 3, "sharedFirstElement") == 0
+		oa := gen.SessionOpts{OKey: key, MaxBatch: 5, Clients: cl, ForceWithBlind: shared}
+		if p.a, err = gen.NewSession(t, typ, oa); err != nil {
 			return nil, err
+		}
+		ob := gen.SessionOpts{OKey: key, MaxBatch: 5, Clients: cl}
+		if shared && len(p.a.Nonces) > 1 {
+			ob.ForceWithBlind, ob.Nonce0, ob.Blind0, ob.Challenge = true, p.a.Nonces[0], p.a.Blinds[0], p.a.Challenge
 		}
 		// same batch size for b (so that a cross-wired response is not rejected for its count alone)
 		for {
-			if p.b, err = gen.NewSession(t, typ, gen.SessionOpts{OKey: key, MaxBatch: 5, Clients: cl}); err != nil {
+			if p.b, err = gen.NewSession(t, typ, ob); err != nil {
 				return nil, err
 			}
 			if len(p.b.Nonces) == len(p.a.Nonces) {
@@ -244,6 +254,20 @@ func runType(t *testing.T, typ uint16, quickRuns, thoroughRuns, perRun int) {
 			t.Fatalf("harness health: honest set-up failed (C01's business): %v", err)
 		}
 		honest := p.respA
+		// in a third of the cases the attack comes FIRST: a response under a foreign key is refused, the same client then
+		// creates another request, and only then the first request is finalized with its genuine response - which must still
+		// give tokens valid for THAT request (a refused response must not have consumed or released anything of the state)
+		if p.foreignKeyResp != nil && gen.Uniform(t, 3, "attackFirst") == 0 {
+			finalize(t, s, p.a, p.foreignKeyResp, "foreign-issuer-key-before-honest", true, honest)
+			o := gen.SessionOpts{OKey: p.a.OKey, RKey: p.a.RKey, RKeyIdx: 0, MaxBatch: 5, Clients: p.clients}
+			if typ == 3 {
+				o.Issuer3, o.Origin, o.ClientSecret = p.a.Issuer3, &p.a.Origin, p.a.ClientSecret
+			}
+			if _, err := gen.NewSession(t, typ, o); err != nil {
+				t.Fatalf("harness health: creating a further request failed: %v", err)
+			}
+			s.Class("attack-before-honest")
+		}
 		// the honest response is accepted (guards against a vacuous 'rejects everything') and - with a second request
 		// of the same client outstanding - yields a token that is valid for THIS request
 		toks, err := p.a.Finalize(append([]byte{}, honest...))
@@ -699,5 +723,66 @@ func TestUnusualCreationArguments(t *testing.T) {
 			}
 		}
 		s.Sample(func() any { return map[string]any{"challenge": rt.Hex(chal), "nonce": rt.Hex(nonce)} })
+	})
+}
+
+// TestType5LengthPrefixes: the element list of a type-5 response carries a varint length prefix of 1, 2 or 4 bytes
+// depending on the batch size (1..1, 2..511, 512.. tokens). For one batch of each form EVERY single-bit variant of the
+// prefix (and of the first and last element and the proof start) is handed to the client: a single-bit flip is a
+// MUST-REJECT class.
+func TestType5LengthPrefixes(t *testing.T) {
+	s := rt.S("type5-length-prefixes").SetRule("type-5 batches of 1, 2, 64, 511 and 512 tokens (prefix forms 1, 2, 2, 2, 4 bytes): every bit of the length prefix, of the 4 bytes after it, of the last element and of the first proof byte is flipped in turn; each variant must be refused (or yield only tokens valid for the request). non-trivial = every variant; distinct by (request, bit)")
+	rt.Check(t, 1, 32, func(t *rapid.T) {
+		defer rt.Entropy(gen.Seed().Draw(t, "entropy"))()
+		key := gen.OPRFKey(oprf.SuiteRistretto255, gen.Seed().Draw(t, "keyseed"))
+		issuer := type5.NewBatchedPrivateIssuer(key)
+		chal := gen.Challenge().Draw(t, "challenge")
+		for _, n := range []int{1, 2, 64, 511, 512} {
+			nonces := make([][]byte, n)
+			base := gen.Bytes32().Draw(t, "nonceBase")
+			for i := range nonces {
+				nonces[i] = append([]byte{}, base...)
+				nonces[i][0], nonces[i][1] = byte(i), byte(i>>8)
+			}
+			st, err := type5.NewBatchedPrivateClient().CreateTokenRequest(chal, nonces, issuer.TokenKeyID(), issuer.TokenKey())
+			if err != nil {
+				t.Fatalf("harness health: creation of a %d-token batch failed: %v", n, err)
+			}
+			resp, err := issuer.Evaluate(st.Request())
+			if err != nil {
+				t.Fatalf("harness health: issuer: %v", err)
+			}
+			l, pl, _ := ref.VarintDecode(resp)
+			if int(l) != 32*n {
+				t.Fatalf("harness: response of a %d-token batch announces %d bytes", n, l)
+			}
+			var bits []int
+			for b := 0; b < (pl+4)*8; b++ {
+				bits = append(bits, b)
+			}
+			for b := (pl + 32*n - 32) * 8; b < (pl+32*n)*8+8; b++ {
+				bits = append(bits, b)
+			}
+			for _, bit := range bits {
+				bad := flipBit(resp, bit)
+				s.Eval()
+				s.Class(fmt.Sprintf("%d-tokens-prefix-%d-bytes", n, pl))
+				s.Nontrivial([]byte{byte(n), byte(n >> 8), byte(bit), byte(bit >> 8)}, resp[:40])
+				var toks []tokens.Token
+				var ferr error
+				if o := rt.GuardLite(func() { toks, ferr = st.FinalizeTokens(bad) }); o.Panic != nil {
+					rt.Fail(t, "C02/type5/bitflip-length/panic", "finalization panicked on a %d-token response with bit %d flipped: %v", n, bit, o.Panic)
+					return
+				}
+				if ferr == nil {
+					rt.Fail(t, "C02/type5/bitflip-length/accepted", "client accepted a %d-token response (prefix %x) with bit %d flipped and returned %d tokens", n, resp[:pl], bit, len(toks))
+					return
+				}
+			}
+			if toks, err := st.FinalizeTokens(resp); err != nil || len(toks) != n {
+				t.Fatalf("harness health: honest %d-token response not accepted (C01's business): %v", n, err)
+			}
+		}
+		s.Sample(func() any { return "batches of 1, 2, 64, 511, 512 tokens" })
 	})
 }
